@@ -241,6 +241,10 @@ func (h *sessHarness) call(withSession bool, f func() (ret string, msg string)) 
 	// Quiescence: let every runnable background goroutine finish. Under the
 	// virtual clock this advances time by exactly 1 ns.
 	time.Sleep(1)
+	// a clean-up timer may be due at exactly the instant this sleep ends: let it run before the next operation
+	for i := 0; i < 16; i++ {
+		runtime.Gosched()
+	}
 	for _, e := range h.st.events {
 		emit("%s", e)
 	}
@@ -410,6 +414,26 @@ func runSess(scriptPath, outPath, stateIn, stateOut string, from int) {
 			h.applyCookieCfg()
 		case "wait":
 			time.Sleep(time.Duration(atoi64(tok[1])))
+			// a clean-up timer may be due at the very instant this sleep ends: let it run first (the model fires every
+			// timer whose deadline is at most the new time)
+			for i := 0; i < 16; i++ {
+				runtime.Gosched()
+			}
+			for _, e := range h.st.events {
+				emit("%s", e)
+			}
+			h.st.events = h.st.events[:0]
+			h.dump()
+		case "waitto":
+			// sleep until the transcript clock reads tok[1]; used by histories whose requests fall on exact multiples of the
+			// time unit, so that idle times and ages EQUAL to a configured duration occur. A clean-up timer may then be due at
+			// the very instant this sleep ends: yield until every goroutine made runnable at this instant has run.
+			if d := atoi64(tok[1]) - nowRel(); d > 0 {
+				time.Sleep(time.Duration(d))
+			}
+			for i := 0; i < 16; i++ {
+				runtime.Gosched()
+			}
 			for _, e := range h.st.events {
 				emit("%s", e)
 			}
